@@ -208,22 +208,7 @@ def run_stream(res: Result, seed: int) -> None:
             lt = asyncio.ensure_future(lookup_loop())
             await sim.sleep_ms(300)
             sources = [("10.0.0.77", 5353), ("10.0.0.78", 5353), ("10.0.0.79", rng.randrange(1024, 65000)), ("fe80::99", 5353), ("fe80::98", rng.randrange(1024, 65000))]
-            for i in range(length):
-                if rng.random() < 0.12:
-                    await sim.sleep_ms(rng.choice([0, 1, 130, 600, 1100, 20000]))
-                    continue
-                data, gen = gen_item(rng, svcs)
-                src = rng.choice(sources)
-                v6 = ":" in src[0]
-                if v6 and layout == "single":
-                    src = sources[0]
-                    v6 = False
-                unicast_delivery = layout == "split" and rng.random() < 0.3
-                sock = None
-                if unicast_delivery:
-                    import socket as _s
-                    cands = [x for x in host.respond if (x.family == _s.AF_INET6) == v6]
-                    sock = cands[0] if cands else None
+            async def deliver(i: int, data: bytes, gen: str, src: Tuple[str, int], sock: Any, v6: bool, unicast_delivery: bool) -> None:
                 items_log.append({"i": i, "gen": gen, "len": len(data), "src": src, "head": data[:40].hex()})
                 res.mon("c15.no_escape")
                 before_esc = len(sim.net.escapes)
@@ -249,6 +234,37 @@ def run_stream(res: Result, seed: int) -> None:
                         esc.get("exc_type"), len(data), gen, src, (esc.get("tb") or esc.get("exc") or "")[-600:]),
                         exc_type=esc.get("exc_type"), gen=gen.split("-")[0], legacy=src[1] != 5353)
                 res.cls(gen, "legacy" if src[1] != 5353 else "mdns", "v6" if v6 else "v4", "ucast" if unicast_delivery else "mcast", outcome, layout)
+            for i in range(length):
+                if rng.random() < 0.04:
+                    # a train of distinct, well-formed truncated queries from one source, each inside the hold of the previous
+                    # one, then silence: the hold timer fires on whatever the listener still keeps for that source
+                    bsrc = rng.choice(sources[:3])
+                    k = rng.choice([2, 3, 8, 15, 16, 17, 18, 31, 32, 33, 34, 40, 64, 65]) if rng.random() < 0.5 else rng.randrange(2, 70)
+                    for j in range(k):
+                        s_ = rng.choice(svcs)
+                        qd = R.build_query([(rng.choice([s_.type, s_.name, T2]), rng.choice([12, 33, 255]), False)], [(s_.ptr(), 1 + j)], id_=j, tc=True)
+                        await deliver(i, qd, "tc-burst", bsrc, None, False, False)
+                        gap_ms = rng.choice([0, 0, 1, 50, 200, 390])
+                        if gap_ms:
+                            await sim.sleep_ms(gap_ms)
+                    await sim.sleep_ms(rng.choice([450, 600, 1200]))
+                    continue
+                if rng.random() < 0.12:
+                    await sim.sleep_ms(rng.choice([0, 1, 130, 600, 1100, 20000]))
+                    continue
+                data, gen = gen_item(rng, svcs)
+                src = rng.choice(sources)
+                v6 = ":" in src[0]
+                if v6 and layout == "single":
+                    src = sources[0]
+                    v6 = False
+                unicast_delivery = layout == "split" and rng.random() < 0.3
+                sock = None
+                if unicast_delivery:
+                    import socket as _s
+                    cands = [x for x in host.respond if (x.family == _s.AF_INET6) == v6]
+                    sock = cands[0] if cands else None
+                await deliver(i, data, gen, src, sock, v6, unicast_delivery)
             # escapes raised from timers scheduled by the stream (deferred TC queries, queued answers)
             await sim.sleep_ms(2600)
             stop["flag"] = True
